@@ -258,6 +258,10 @@ pub struct RunSpec {
     /// answers to the library inside calls); 0 = the real environment.
     #[serde(default)]
     pub env_plan: u64,
+    /// Callers pass haystacks through one reused per-thread `String` buffer (same address,
+    /// often same length, different content) instead of a separate string per call.
+    #[serde(default)]
+    pub reuse_input_buffer: bool,
 }
 
 impl RunSpec {
